@@ -75,6 +75,35 @@ func ruleArgsOrder(c *Ctx) {
 					}
 				}
 			}
+			// the same by distinguishing words: parameters justifiedEpoch / finalizedEpoch differ by "justified" /
+			// "finalized"; an argument path that carries the OTHER parameter's word at each of the two positions
+			// (fc.finalized.Epoch, fc.justified.Epoch) is the same exchange
+			for i := 0; i < np && !swapped; i++ {
+				for j := i + 1; j < np && !swapped; j++ {
+					pi, pj := sig.Params().At(i), sig.Params().At(j)
+					if !types.Identical(pi.Type(), pj.Type()) {
+						continue
+					}
+					wi, wj := distinctWords(pi.Name(), pj.Name())
+					if len(wi) == 0 || len(wj) == 0 {
+						continue
+					}
+					ai, aj := pathWords(call.Args[i]), pathWords(call.Args[j])
+					has := func(ws map[string]bool, set []string) bool {
+						for _, w := range set {
+							if ws[w] {
+								return true
+							}
+						}
+						return false
+					}
+					if has(ai, wj) && !has(ai, wi) && has(aj, wi) && !has(aj, wj) {
+						key := pkgShort(pk.Types) + "." + funcName(fd) + "->" + qualName(f)
+						c.bad(key, call.Pos(), "arguments %s and %s are passed at the positions of parameters %s and %s of %s (same type %s): each names what the other parameter is called — swapped", types.ExprString(call.Args[i]), types.ExprString(call.Args[j]), pi.Name(), pj.Name(), qualName(f), pi.Type())
+						swapped = true
+					}
+				}
+			}
 			if !swapped {
 				c.ok(pkgShort(pk.Types)+"."+funcName(fd)+"->"+qualName(f), call.Pos(), "no permuted same-typed arguments")
 			}
@@ -82,4 +111,82 @@ func ruleArgsOrder(c *Ctx) {
 		})
 	})
 	c.stat("call_sites_checked", sites)
+}
+
+// camelWords: "justifiedEpoch" -> [justified epoch]; "prev_epoch" -> [prev epoch].
+func camelWords(s string) []string {
+	var out []string
+	cur := ""
+	flush := func() {
+		if cur != "" {
+			out = append(out, strings.ToLower(cur))
+			cur = ""
+		}
+	}
+	for i, r := range s {
+		switch {
+		case r == '_':
+			flush()
+		case r >= 'A' && r <= 'Z' && i > 0 && cur != "" && !(cur[len(cur)-1] >= 'A' && cur[len(cur)-1] <= 'Z'):
+			flush()
+			cur += string(r)
+		default:
+			cur += string(r)
+		}
+	}
+	flush()
+	return out
+}
+
+// distinctWords: the words of a that b does not have, and the reverse (words shorter than 4 letters do not count).
+func distinctWords(a, b string) (onlyA, onlyB []string) {
+	wa, wb := camelWords(a), camelWords(b)
+	in := func(w string, ws []string) bool {
+		for _, x := range ws {
+			if x == w {
+				return true
+			}
+		}
+		return false
+	}
+	for _, w := range wa {
+		if len(w) >= 4 && !in(w, wb) {
+			onlyA = append(onlyA, w)
+		}
+	}
+	for _, w := range wb {
+		if len(w) >= 4 && !in(w, wa) {
+			onlyB = append(onlyB, w)
+		}
+	}
+	return
+}
+
+// pathWords: the words of every identifier of a plain path expression (a.b.c, conversions and & stripped).
+func pathWords(e ast.Expr) map[string]bool {
+	out := map[string]bool{}
+	var walk func(e ast.Expr)
+	walk = func(e ast.Expr) {
+		switch x := ast.Unparen(e).(type) {
+		case *ast.Ident:
+			for _, w := range camelWords(x.Name) {
+				out[w] = true
+			}
+		case *ast.SelectorExpr:
+			walk(x.X)
+			for _, w := range camelWords(x.Sel.Name) {
+				out[w] = true
+			}
+		case *ast.UnaryExpr:
+			walk(x.X)
+		case *ast.StarExpr:
+			walk(x.X)
+		case *ast.CallExpr:
+			if len(x.Args) == 1 {
+				walk(x.Args[0]) // conversion
+			}
+		}
+	}
+	walk(e)
+	return out
 }
